@@ -50,6 +50,7 @@ def run_history(case, root, ID, ls_after_each=False):
                                          ic["legacy"])
                 configure_paths(it, cfg["store"])
             machines[ic["name"]] = lang.Machine(mstore, ic["name"])
+            machines[ic["name"]].nonsecure = not ic["secure"]
 
         def call(inst, src, fname, senv=None):
             """one command through the host of that instance"""
@@ -58,11 +59,19 @@ def run_history(case, root, ID, ls_after_each=False):
             h = hosts[inst]
             calls, printed = h.send(src)
             last_printed[inst] = printed
-            if h.prompts and h.prompts[-1].startswith("+"):
-                # the REPL wants a continuation line: end the statement
-                c2, p2 = h.send(")")
+            tries = 0
+            while h.prompts and h.prompts[-1].startswith("+"):
+                # the REPL wants a continuation line although the command
+                # was complete: first offer an empty statement (a correct
+                # REPL never gets here with the generated commands), then
+                # force the end of the statement
+                tries += 1
+                c2, p2 = h.send(";" if tries <= 2 else ")")
                 calls, printed = calls + c2, printed + p2
                 last_printed[inst] = printed
+                probes["repl_continuation_prompt"] = 1
+                if tries > 4:
+                    break
             if not calls:
                 from ckl.errors import CklSyntaxError
                 raise CklSyntaxError("(rejected by the REPL's parser: "
